@@ -45,6 +45,10 @@ func c12Opts(set, dir string) []func(*Config) {
 		o = append(o, Update(true))
 	case "updatefalse":
 		o = append(o, Update(false))
+	case "filenameUpper":
+		o = append(o, Filename("CUST")) // differs from "filename" (cust) in letter case only
+	case "extUpper":
+		o = append(o, Ext(".TXT"))
 	case "jsonwidth":
 		// the default indent and key order, only the width differs
 		o = append(o, JSON(JSONConfig{Indent: " ", SortKeys: true, Width: 40}))
@@ -158,6 +162,9 @@ func c12Do(cfg *Config, api string, t *vfT, i int) {
 	}
 }
 
+// c12WithIDs: pair cases compare the addressed slot too (two Configs do not share ordinals unless they address the same file)
+var c12WithIDs bool
+
 var c12OrdRe = regexp.MustCompile(`_\d+\.snap`)
 
 // c12Created lists what a call created or changed, with standalone ordinals
@@ -174,7 +181,12 @@ func c12Created(before, after vfDirObs) []string {
 			if !c12OrdRe.MatchString(n) {
 				if es, err := vfParse(a.Data); err == nil && len(es) > 0 {
 					stored = es[len(es)-1].Body
+					if c12WithIDs {
+						stored = "[" + es[len(es)-1].ID + "] " + stored
+					}
 				}
+			} else if c12WithIDs {
+				stored = n + ": " + stored // the ordinal in the file name counts too
 			}
 			out = append(out, c12OrdRe.ReplaceAllString(n, "_N.snap")+" <- "+strconv.Quote(stored))
 		}
@@ -224,7 +236,7 @@ func c12Gen(c *vfCtx, emit func(c12Case)) {
 		}
 	}
 	// two Configs built one after the other in one process, differing in their options: the second behaves as if it were alone
-	pairSets := []string{"none", "update", "updatefalse", "ext", "json", "filename", "basejson", "basejson+more", "jsonwidth"}
+	pairSets := []string{"none", "update", "updatefalse", "ext", "json", "filename", "basejson", "basejson+more", "jsonwidth", "filenameUpper", "extUpper"}
 	for _, x := range pairSets {
 		for _, y := range pairSets {
 			if x == y {
@@ -257,9 +269,43 @@ func c12Gen(c *vfCtx, emit func(c12Case)) {
 // c12SharedJSON: an option VALUE (the func returned by snaps.JSON) reused across WithConfig calls, as a project-wide base would be
 var c12SharedJSON func(*Config)
 
+// c12Canary: what Configs WITHOUT any formatting option (and hence the package-level defaults) store for a fixed document.
+// Taken once per process before the first case touches anything, and again after every case: no call through any Config may change it.
+var c12CanaryBase string
+
+func c12CanaryText(c *vfCtx) string {
+	d := filepath.Join(c.scratch, "canary")
+	os.RemoveAll(d)
+	os.MkdirAll(d, 0o755)
+	vfResetState(false, "", true)
+	t := &vfT{name: "TestCanary"}
+	cfg := WithConfig(Dir(d))
+	cfg.MatchStandaloneJSON(t, `{"z":[1,2,3],"a":{"k":"v","arr":[{"x":1},{"y":[true,null]}]}}`)
+	cfg.MatchSnapshot(t, map[string]any{"b": []int{1, 2}, "a": "x"})
+	cfg.MatchYAML(t, map[string]any{"l": []any{1, "two"}, "k": map[string]int{"z": 1, "y": 2}})
+	t.end()
+	return string(vfAllBytes(d))
+}
+
+func c12Canary(c *vfCtx, cs c12Case, when string) bool {
+	txt := c12CanaryText(c)
+	if c12CanaryBase == "" {
+		c12CanaryBase = txt
+		return true
+	}
+	if txt != c12CanaryBase {
+		c.violation("", fmt.Sprintf("%s: a Config built without any formatting option now stores %q; at the start of the process it stored %q (the package defaults were changed by a call through another Config)", when, vfClip(txt), vfClip(c12CanaryBase)), cs)
+		c12CanaryBase = txt // report once per change
+		return false
+	}
+	return true
+}
+
 // c12Pair: WithConfig(X) then WithConfig(Y) in the same directory; one call through Y, compared with Y built alone elsewhere.
 func c12Pair(c *vfCtx, cs c12Case) {
 	c.addSet("nontrivial", vfHashJSON(cs))
+	c12Canary(c, cs, "before the case")
+	defer c12Canary(c, cs, "after the case")
 	x, y, api := cs.OptSet, cs.Seq[0], cs.Seq[1]
 	// directories no earlier case of this process has built a Config for (a process-wide memo keyed by the options would otherwise
 	// already hold Configs for them, in the pair run and in the reference run alike)
@@ -269,7 +315,17 @@ func c12Pair(c *vfCtx, cs c12Case) {
 	os.RemoveAll(filepath.Join(c.scratch, "w2"))
 	os.MkdirAll(dir, 0o755)
 	os.MkdirAll(dir2, 0o755)
-	run := func(d string, first string) (string, []string) {
+	// names of files changed between two observations of a directory
+	changed := func(a, b vfDirObs) map[string]bool {
+		out := map[string]bool{}
+		for n, o := range b {
+			if p, ok := a[n]; !o.IsDir && (!ok || string(p.Data) != string(o.Data)) {
+				out[n] = true
+			}
+		}
+		return out
+	}
+	run := func(d string, first string) (string, []string, []string) {
 		vfResetState(false, "", true)
 		c12SharedJSON = JSON(JSONConfig{Indent: "  ", SortKeys: true, Width: 40})
 		var cfg *Config
@@ -277,28 +333,49 @@ func c12Pair(c *vfCtx, cs c12Case) {
 			// built BEFORE the other one: building another Config later must not change this one
 			cfg = WithConfig(c12Opts(y, d)...)
 		}
+		// both calls are made by the SAME test (one execution): ordinals are per (file, test), so the call through the second
+		// Config gets ordinal 1 exactly when the two Configs address different files
+		t := &vfT{name: "TestA"}
+		xFiles := map[string]bool{}
 		if first != "" {
 			cx := WithConfig(c12Opts(first, d)...)
 			if len(cs.Seq) > 2 {
-				tx := &vfT{name: "TestX"}
-				c12Do(cx, api, tx, 5)
-				tx.end()
+				b0 := vfSnapDir(d)
+				c12Do(cx, api, t, 5)
+				xFiles = changed(b0, vfSnapDir(d))
 				c.count("transitions", 1)
 			}
 		}
 		if cfg == nil {
 			cfg = WithConfig(c12Opts(y, d)...)
 		}
-		t := &vfT{name: "TestA"}
 		before := vfSnapDir(d)
 		mk := t.mark()
 		c12Do(cfg, api, t, 0)
 		t.end()
 		c.count("transitions", 1)
-		return t.outcome(mk), c12Created(before, vfSnapDir(d))
+		after := vfSnapDir(d)
+		_ = xFiles
+		// the two Configs address the same file exactly when their Dir / Filename / Ext options agree
+		addr := func(set string) string {
+			switch set {
+			case "ext", "extUpper", "filename", "filenameUpper", "dir", "all":
+				return set
+			}
+			return "default"
+		}
+		sameFile := first != "" && len(cs.Seq) > 2 && addr(first) == addr(y)
+		c12WithIDs = !sameFile
+		withIDs := c12Created(before, after)
+		c12WithIDs = false
+		return t.outcome(mk), withIDs, c12Created(before, after)
 	}
-	aloneO, aloneC := run(dir2, "")
-	pairO, pairC := run(dir, x)
+	defer func() { c12WithIDs = false }()
+	aloneO, aloneC, aloneN := run(dir2, "")
+	pairO, pairC, pairN := run(dir, x)
+	if fmt.Sprint(pairC) == fmt.Sprint(pairN) {
+		aloneC = aloneN // the two Configs address the same file: the ordinal legitimately moved on
+	}
 	c.outcome("pair:" + pairO)
 	c.addSet("states", vfHash(x, y, api, pairO, fmt.Sprint(pairC)))
 	if pairO != aloneO || fmt.Sprint(pairC) != fmt.Sprint(aloneC) {
@@ -316,6 +393,8 @@ func c12Run(c *vfCtx, cs c12Case) {
 		return
 	}
 	c.addSet("nontrivial", vfHashJSON(cs))
+	c12Canary(c, cs, "before the case")
+	defer c12Canary(c, cs, "after the case")
 	dir := c.newWorld()
 	vfResetState(false, "", true)
 	opts := c12Opts(cs.OptSet, dir)
